@@ -25,6 +25,10 @@ from . import c01_mempool
 CC = "chia_consensus::"
 
 
+# tree hash of singleton_top_layer_v1_1.clsp (chia_puzzles::SINGLETON_TOP_LAYER_V1_1_HASH), as the driver renders the constant operand
+SINGLETON_HASH = repr(bytes.fromhex("7faa3253bfddd1e0decb0906b2dc6247bbc4cf608f58345d173adb63e8b47c9f"))
+
+
 def run(ctx):
     ctx.explanation = (
         "MPT/EFF/TBL/SIB rules: the single accepting path of fast_forward_singleton is extracted and each required refusal "
@@ -62,8 +66,8 @@ def c19_1_2(ctx):
         "decode:puzzle": lambda s, v: "from_clvm" in s and "'puzzle'" in s and v == "ok",
         "decode:solution": lambda s, v: "from_clvm" in s and "'solution'" in s and v == "ok",
         "lineage-proof-variant": lambda s, v: ".lineage_proof" in s and v == "Lineage",
-        "mod-hash:struct": lambda s, v: _ne(s) and ".mod_hash" in s and "SINGLETON_TOP_LAYER_V1_1_HASH" in s and v is False,
-        "mod-hash:program": lambda s, v: _ne(s) and "tree_hash" in s and ".program" in s and v is False,
+        "mod-hash:struct": lambda s, v: _ne(s) and ".mod_hash" in s and ".singleton_struct" in s and SINGLETON_HASH in s and v is False,
+        "mod-hash:program": lambda s, v: _ne(s) and "('tree_hash', ('.program', ('from_clvm', 'puzzle')))" in s and SINGLETON_HASH in s and v is False,
         "amount==solution.amount": lambda s, v: "'Ne'" in s and "'.amount', 'coin'" in s and ".amount" in s and "from_clvm" in s and v is False,
         "parent-id": lambda s, v: _ne(s) and "Coin::coin_id" in s and "'.parent_coin_info', 'coin'" in s and v is False,
         "inner-puzzle-hash": lambda s, v: _ne(s) and "tree_hash" in s and ".inner_puzzle" in s and "parent_inner_puzzle_hash" in s and v is False,
@@ -118,7 +122,7 @@ def c19_1_2(ctx):
 
 def _ne(s):
     import re
-    return re.search(r"\('(\w+::)?[nN]e'", s) is not None
+    return re.search(r"^\('(\w+::)?[nN]e'", s) is not None
 
 
 def _leaf_field(p):
